@@ -384,6 +384,102 @@ def r48_no_global_writer(ctx, extra_modules=None):
 # R49
 # ---------------------------------------------------------------------------
 
+PASSTHROUGH = ('sorted', 'list', 'tuple', 'reversed', 'iter', 'next', 'zip', 'enumerate', 'max', 'min', 'filter')
+PASS_METHODS = ('get', 'setdefault', 'pop', 'values', 'items', 'copy')
+
+
+def _root_name(e):
+    while isinstance(e, (ast.Attribute, ast.Subscript, ast.Call)):
+        e = e.func if isinstance(e, ast.Call) else e.value
+    return e.id if isinstance(e, ast.Name) else '?'
+
+
+def _rooted_in(ctx, f, e, tainted):
+    """is e an access path (attribute / item / passthrough call chain) that starts at the profile or at a name holding profile objects?"""
+    p = ctx.canon(e, f) or ''
+    if p.startswith('E.electionProfile') or p.startswith('electionProfile'):
+        return True
+    if isinstance(e, ast.Name):
+        return e.id in tainted
+    if isinstance(e, ast.Attribute):
+        if e.attr == 'electionProfile':
+            return True
+        return _rooted_in(ctx, f, e.value, tainted)
+    if isinstance(e, ast.Subscript):
+        return _rooted_in(ctx, f, e.value, tainted)
+    if isinstance(e, ast.Call):
+        if isinstance(e.func, ast.Name) and e.func.id in PASSTHROUGH:
+            return any(_rooted_in(ctx, f, a, tainted) for a in e.args)
+        if isinstance(e.func, ast.Attribute) and e.func.attr in PASS_METHODS:
+            return _rooted_in(ctx, f, e.func.value, tainted)
+        return False
+    if isinstance(e, (ast.IfExp,)):
+        return _rooted_in(ctx, f, e.body, tainted) or _rooted_in(ctx, f, e.orelse, tainted)
+    if isinstance(e, ast.BoolOp):
+        return any(_rooted_in(ctx, f, v, tainted) for v in e.values)
+    if isinstance(e, (ast.ListComp, ast.GeneratorExp, ast.SetComp)):
+        return False
+    return False
+
+
+def _profile_aliases(ctx, f):
+    """(names of f that may hold an object belonging to the election profile, names bound to a container built in f)"""
+    tainted = set(p for p in f.params if p == 'electionProfile')
+    # a local helper whose parameter is handed a profile object by its enclosing function
+    if f.parent is not None:
+        pt, _pf = _profile_aliases(ctx, f.parent)
+        for c in f.parent.all_nodes():
+            if isinstance(c, ast.Call) and isinstance(c.func, ast.Name) and c.func.id == f.name:
+                caller = ctx.repo.enclosing_func(c)
+                ct = pt if caller is f.parent else (_profile_aliases(ctx, caller)[0] if caller is not f else set())
+                for i, a in enumerate(c.args):
+                    if i < len(f.params) and _rooted_in(ctx, caller, a, ct):
+                        tainted.add(f.params[i])
+                for k in c.keywords:
+                    if k.arg in f.params and _rooted_in(ctx, caller, k.value, ct):
+                        tainted.add(k.arg)
+    fresh = set()
+    for nm, defs in f.assigns().items():
+        if defs and all(isinstance(v, (ast.List, ast.Dict, ast.Set, ast.ListComp, ast.DictComp, ast.SetComp)) or
+                        (isinstance(v, ast.Call) and isinstance(v.func, ast.Name) and v.func.id in ('list', 'dict', 'set', 'defaultdict', 'OrderedDict'))
+                        for v, st in defs):
+            fresh.add(nm)
+    changed = True
+    while changed:
+        changed = False
+        for nm, defs in f.assigns().items():
+            if nm in tainted:
+                continue
+            for v, st in defs:
+                src = None
+                if hasattr(v, 'for_node'):
+                    src = v.for_node.iter
+                elif isinstance(v, ast.AST) and not isinstance(v, (ast.FunctionDef, ast.AugAssign)):
+                    src = v
+                if src is not None and _rooted_in(ctx, f, src, tainted):
+                    tainted.add(nm)
+                    changed = True
+                    break
+                # comprehension that keeps the elements of a profile collection
+                if isinstance(src, (ast.ListComp, ast.SetComp, ast.GeneratorExp)) and isinstance(src.elt, ast.Name) \
+                        and any(isinstance(g.target, ast.Name) and g.target.id == src.elt.id and _rooted_in(ctx, f, g.iter, tainted) for g in src.generators):
+                    tainted.add(nm)
+                    changed = True
+                    break
+        # containers filled with profile objects: X[k] = <profile object>, X.append(<profile object>), X.setdefault(k, <profile object>)
+        for n in f.own_nodes():
+            if isinstance(n, ast.Assign) and isinstance(n.targets[0], ast.Subscript) and isinstance(n.targets[0].value, ast.Name) \
+                    and n.targets[0].value.id not in tainted and n.targets[0].value.id in f.assigns() and _rooted_in(ctx, f, n.value, tainted):
+                tainted.add(n.targets[0].value.id)
+                changed = True
+            if isinstance(n, ast.Call) and isinstance(n.func, ast.Attribute) and n.func.attr in ('append', 'add', 'setdefault', 'insert', 'extend') \
+                    and isinstance(n.func.value, ast.Name) and n.func.value.id not in tainted and n.func.value.id in f.assigns() \
+                    and any(_rooted_in(ctx, f, a, tainted) for a in n.args):
+                tainted.add(n.func.value.id)
+                changed = True
+    return tainted, fresh
+
+
 def r49_per_election_objects(ctx):
     R = 'R49'
     repo = ctx.repo
@@ -445,9 +541,35 @@ def r49_per_election_objects(ctx):
             if bad:
                 ctx.bad(R, n, f, 'the election profile (shared by every election counted from it) is never modified by a count',
                         '%s on `%s`' % (how, u))
+    # ... nor through an alias: objects reached from the profile (a ballot line bound by a loop, kept in a local dict, returned by
+    # .get()/sorted()/next()) are still the profile's own objects
+    n_alias = 0
+    for f in repo.funcs.values():
+        if f.module.name == 'droop.profile' or not f.module.name.startswith('droop'):
+            continue
+        tainted, fresh = _profile_aliases(ctx, f)
+        if not tainted:
+            continue
+        for n in f.own_nodes():
+            tgt, how = None, None
+            if isinstance(n, ast.Attribute) and isinstance(n.ctx, (ast.Store, ast.Del)):
+                tgt, how = n.value, 'attribute store .%s' % n.attr
+            elif isinstance(n, ast.Subscript) and isinstance(n.ctx, (ast.Store, ast.Del)):
+                tgt, how = n.value, 'item store'
+            elif isinstance(n, ast.Call) and isinstance(n.func, ast.Attribute) and n.func.attr in MUTATORS:
+                tgt, how = n.func.value, '.%s()' % n.func.attr
+            if tgt is None:
+                continue
+            n_alias += 1
+            if isinstance(tgt, ast.Name) and tgt.id in fresh:
+                continue            # filling a container built in this function
+            if _rooted_in(ctx, f, tgt, tainted):
+                ctx.bad(R, n, f, 'the election profile (shared by every election counted from it) is never modified by a count',
+                        '%s on `%s`, an object that belongs to the profile (reached through %s): the next election counted from the '
+                        'same profile sees the change' % (how, unparse(tgt), _root_name(tgt)))
     ctx.ok(R, None, 'package', 'the election profile (shared by every election counted from it) is never modified by a count',
-           '%d store/mutation sites outside droop/profile.py examined: none targets the profile, a ballot ranking or the '
-           'ballot-line lists' % n_prof)
+           '%d store/mutation sites outside droop/profile.py examined (%d in functions that hold profile objects): none targets the profile, '
+           'a ballot ranking, the ballot-line lists or an alias of a profile object' % (n_prof, n_alias))
     # rule objects keep their state on self
     for c in repo.rule_classes():
         for nm, v in c.class_attrs.items():
